@@ -67,6 +67,10 @@ def check_one(mtj, op, relc, order=None):
         return out, 0
     if r is not t:
         bad('returned-other', 'returned a different node than the root')
+    after_ids = set(id(x) for x in all_nodes(t))
+    if after_ids != set(before):
+        bad('frame', 'the tree gained %d and lost %d nodes (nodes of another tree attached, or nodes detached)'
+            % (len(after_ids - set(before)), len(set(before) - after_ids)))
     moved = [x for x in nodes if x.parent is not before[id(x)]]
     # tokens and their order untouched
     now = [(x.data.get('word'), x.data.get('label'), x.data.get('num')) for x in toks]
